@@ -65,3 +65,12 @@ HTTP_NOTE = (' TIE-H: the same generated histories are also issued as v2 HTTP re
 for _pid, _extra in [('C02', None), ('C03', None), ('C13', ['-profile', 'ik']), ('C15', None), ('C17', None), ('C25', ['-profile', 'postings'])]:
     PROPS[_pid]['ties'].append(http_tie(_pid, extra=_extra))
     PROPS[_pid]['explanation'] += HTTP_NOTE
+
+def http1_tie(pid, quick=120, thorough=2500, extra=None):
+    args = ['-via', 'http1', '-monitors', pid, '-features', 'mixed'] + (extra or [])
+    return dict(name='TIE-H http v1', vh='hist', model='histh1', n=dict(quick=quick, thorough=thorough), args=dict(all=args), kinds=[pid], case_head='histh1')
+HTTP1_NOTE = (' TIE-H v1: the same histories restricted to what the v1 API can express (no force/accountMetadata on create, no atEffectiveDate/metadata on revert; preview= spellings for dry runs, '
+              'disableChecks for forced reverts) are issued as v1 requests (internal/api/v1), their one-element-array answers decoded (txid, postings digit for digit), the state read back through v2.')
+for _pid, _extra in [('C02', None), ('C13', ['-profile', 'ik']), ('C15', None), ('C25', ['-profile', 'postings'])]:
+    PROPS[_pid]['ties'].append(http1_tie(_pid, extra=_extra))
+    PROPS[_pid]['explanation'] += HTTP1_NOTE
